@@ -287,6 +287,18 @@ func (ps *PairShuffle) Verify(
 		return err
 	}
 
+	// The simple k-shuffle must be the one about the vectors
+	// R = A + lambda*B and S = C + lambda*D derived from this transcript
+	// (Neff, section 4): its inputs are read from the proof, so they have
+	// to be tied to the commitments here.
+	for i := range k {
+		R := grp.Point().Add(p1.A[i], grp.Point().Mul(v4.Zlambda, B[i]))
+		S := grp.Point().Add(p1.C[i], grp.Point().Mul(v4.Zlambda, p3.D[i]))
+		if !R.Equal(ps.pv6.p0.X[i]) || !S.Equal(ps.pv6.p0.Y[i]) {
+			return errors.New("invalid PairShuffleProof")
+		}
+	}
+
 	// V step 7
 	Phi1 := grp.Point().Null()
 	Phi2 := grp.Point().Null()
